@@ -96,3 +96,33 @@ VARIANTS += [
       "    top: Final[int] = 1_000_000_000_000_000\n"
       "    return check_to_int_range(val, \"value\", 0, top)", "silent"),
 ]
+
+VARIANTS += [
+    V("flows-stored-from-distances", "moptipyapps/qap/instance.py",
+      "flows.astype(dtype) if flows.dtype != dtype else flows",
+      "flows.astype(dtype) if flows.dtype != dtype else distances", "fire",
+      "D9.3"),
+    V("distances-stored-from-flows", "moptipyapps/qap/instance.py",
+      "distances.astype(dtype) if distances.dtype != dtype else distances",
+      "flows.astype(dtype)", "fire", "D9.3"),
+    V("silent-matrices-always-converted", "moptipyapps/qap/instance.py",
+      "flows.astype(dtype) if flows.dtype != dtype else flows",
+      "np.array(flows, dtype=dtype)", "silent"),
+]
+
+VARIANTS += [
+    V("flows-if-form-default-from-distances", "moptipyapps/qap/instance.py",
+      "        self.flows: Final[np.ndarray] = \\\n"
+      "            flows.astype(dtype) if flows.dtype != dtype else flows\n",
+      "        use: np.ndarray = distances\n"
+      "        if flows.dtype != dtype:\n"
+      "            use = flows.astype(dtype)\n"
+      "        self.flows: Final[np.ndarray] = use\n", "fire", "D9.3"),
+    V("silent-flows-if-form", "moptipyapps/qap/instance.py",
+      "        self.flows: Final[np.ndarray] = \\\n"
+      "            flows.astype(dtype) if flows.dtype != dtype else flows\n",
+      "        use: np.ndarray = flows\n"
+      "        if flows.dtype != dtype:\n"
+      "            use = flows.astype(dtype)\n"
+      "        self.flows: Final[np.ndarray] = use\n", "silent"),
+]
